@@ -73,6 +73,10 @@ pub(crate) struct Circuit {
     success_count: usize,
     total_count: usize,
     slow_call_count: usize,
+    // Outcomes (is_failure, is_slow) of the last `sliding_window_size` calls
+    count_window: VecDeque<(bool, bool)>,
+    window_failure_count: usize,
+    window_slow_call_count: usize,
     // Time-based window tracking
     call_records: VecDeque<CallRecord>,
 }
@@ -100,8 +104,44 @@ impl Circuit {
             success_count: 0,
             total_count: 0,
             slow_call_count: 0,
+            count_window: VecDeque::new(),
+            window_failure_count: 0,
+            window_slow_call_count: 0,
             call_records: VecDeque::new(),
         }
+    }
+
+    /// Records one outcome in the count-based sliding window, evicting the
+    /// oldest outcome once the window holds `window_size` calls.
+    fn push_count_window(&mut self, window_size: usize, is_failure: bool, is_slow: bool) {
+        while window_size > 0 && self.count_window.len() >= window_size {
+            if let Some((old_failure, old_slow)) = self.count_window.pop_front() {
+                if old_failure {
+                    self.window_failure_count -= 1;
+                }
+                if old_slow {
+                    self.window_slow_call_count -= 1;
+                }
+            }
+        }
+        self.count_window.push_back((is_failure, is_slow));
+        if is_failure {
+            self.window_failure_count += 1;
+        }
+        if is_slow {
+            self.window_slow_call_count += 1;
+        }
+    }
+
+    /// Returns (total, failures, successes, slow) over the count-based sliding window.
+    fn count_based_stats(&self) -> (usize, usize, usize, usize) {
+        let total = self.count_window.len();
+        (
+            total,
+            self.window_failure_count,
+            total - self.window_failure_count,
+            self.window_slow_call_count,
+        )
     }
 
     pub fn state(&self) -> CircuitState {
@@ -115,12 +155,7 @@ impl Circuit {
     pub fn metrics<C>(&self, config: &CircuitBreakerConfig<C>) -> CircuitMetrics {
         let (total_calls, failure_count, success_count, slow_call_count) =
             match config.sliding_window_type {
-                SlidingWindowType::CountBased => (
-                    self.total_count,
-                    self.failure_count,
-                    self.success_count,
-                    self.slow_call_count,
-                ),
+                SlidingWindowType::CountBased => self.count_based_stats(),
                 SlidingWindowType::TimeBased => self.time_based_stats(),
             };
 
@@ -200,6 +235,7 @@ impl Circuit {
                 if is_slow {
                     self.slow_call_count += 1;
                 }
+                self.push_count_window(config.sliding_window_size, false, is_slow);
             }
             SlidingWindowType::TimeBased => {
                 if let Some(window_duration) = config.sliding_window_duration {
@@ -279,6 +315,7 @@ impl Circuit {
                 if is_slow {
                     self.slow_call_count += 1;
                 }
+                self.push_count_window(config.sliding_window_size, true, is_slow);
             }
             SlidingWindowType::TimeBased => {
                 if let Some(window_duration) = config.sliding_window_duration {
@@ -456,18 +493,16 @@ impl Circuit {
         self.failure_count = 0;
         self.total_count = 0;
         self.slow_call_count = 0;
+        self.count_window.clear();
+        self.window_failure_count = 0;
+        self.window_slow_call_count = 0;
         self.call_records.clear();
     }
 
     fn evaluate_window<C>(&mut self, config: &CircuitBreakerConfig<C>) {
         let (total_count, failure_count, _success_count, slow_call_count) =
             match config.sliding_window_type {
-                SlidingWindowType::CountBased => (
-                    self.total_count,
-                    self.failure_count,
-                    self.success_count,
-                    self.slow_call_count,
-                ),
+                SlidingWindowType::CountBased => self.count_based_stats(),
                 SlidingWindowType::TimeBased => {
                     if let Some(window_duration) = config.sliding_window_duration {
                         self.cleanup_old_records(window_duration);
@@ -477,7 +512,12 @@ impl Circuit {
             };
 
         // Don't evaluate until minimum calls threshold is met
-        if total_count < config.minimum_number_of_calls {
+        // (count-based: calls recorded since the window was last cleared)
+        let recorded_count = match config.sliding_window_type {
+            SlidingWindowType::CountBased => self.total_count,
+            SlidingWindowType::TimeBased => total_count,
+        };
+        if recorded_count < config.minimum_number_of_calls {
             return;
         }
 
